@@ -37,13 +37,13 @@ M == INSTANCE Minter WITH cfg <- mcfg, halted <- halted, nupd <- nupd, exact <- 
 D == INSTANCE Distributor WITH cfg <- dcfg, phase <- "dep", nupd <- nupd, deposited <- supply, halted <- halted, exact <- dexact,
                           Configs <- DistCfgs, DepositVecs <- {}, FaultSets <- {{}}, UpdateTries <- {}, RejectProbeBlocks <- {}, Quirks <- {}
 
-ZeroC == [d \in Denoms |-> 0]
+ZeroC == TLCEval([d \in Denoms |-> 0])
 
 Init ==
   /\ mcfg = M!NoCfg /\ ms = M!MS0 /\ hist = <<>> /\ now = 0 /\ total = 0 /\ sup = [d \in M!ValidDenoms |-> Supply0] /\ mexact = TRUE
   /\ dcfg = D!NoCfg /\ bal = [k \in D!BankKeys |-> ZeroC] /\ rem = [k \in D!Universe |-> ZeroC]
   /\ entitled = [k \in D!Universe |-> ZeroC] /\ paid = [k \in D!Universe |-> ZeroC] /\ requeued = [k \in D!Universe |-> ZeroC] /\ dexact = TRUE
-  /\ supply = [d \in Denoms |-> Supply0] /\ minted = ZeroC /\ burned = ZeroC
+  /\ supply = TLCEval([d \in Denoms |-> Supply0]) /\ minted = ZeroC /\ burned = ZeroC
   /\ blocks = 0 /\ nupd = 0 /\ pcScript = 1 /\ halted = FALSE
   /\ act = [name |-> "init"] /\ stage = 0
 
@@ -64,10 +64,10 @@ BeginBlock(t) ==
          burnedNow == [x \in Denoms |-> d.paid[D!BURNK][x] - paid[D!BURNK][x]]
      IN /\ now' = t /\ ms' = r.ms /\ hist' = r.hist /\ halted' = r.err
         /\ total' = total + r.amount /\ sup' = [sup EXCEPT ![md] = @ + r.amount] /\ mexact' = (mexact /\ r.exact)
-        /\ bal' = d.bal /\ rem' = d.rem /\ entitled' = d.entitled /\ paid' = d.paid /\ requeued' = d.requeued /\ dexact' = (dexact /\ d.exact)
+        /\ bal' = TLCEval(d.bal) /\ rem' = TLCEval(d.rem) /\ entitled' = TLCEval(d.entitled) /\ paid' = TLCEval(d.paid) /\ requeued' = TLCEval(d.requeued) /\ dexact' = (dexact /\ d.exact)
         /\ minted' = [minted EXCEPT ![md] = @ + r.amount]
-        /\ burned' = [x \in Denoms |-> burned[x] + burnedNow[x]]
-        /\ supply' = [x \in Denoms |-> supply[x] + (IF x = md THEN r.amount ELSE 0) - burnedNow[x]]
+        /\ burned' = TLCEval([x \in Denoms |-> burned[x] + burnedNow[x]])
+        /\ supply' = TLCEval([x \in Denoms |-> supply[x] + (IF x = md THEN r.amount ELSE 0) - burnedNow[x]])
         /\ act' = [name |-> "block", t |-> t, minted |-> r.amount, burned |-> burnedNow, events |-> d.events]
   /\ blocks' = blocks + 1
   /\ UNCHANGED <<mcfg, dcfg, nupd, pcScript>>
@@ -75,7 +75,7 @@ BeginBlock(t) ==
 Fee(v) ==
   /\ Configured /\ ~halted /\ stage < 1 /\ stage' = 1
   /\ DOMAIN v \subseteq (D!KeysOf(dcfg) \cup {D!MAINK}) \cap D!BankKeys
-  /\ bal' = [k \in DOMAIN bal |-> IF k \in DOMAIN v THEN [d \in Denoms |-> bal[k][d] + v[k][d]] ELSE bal[k]]
+  /\ bal' = TLCEval([k \in DOMAIN bal |-> IF k \in DOMAIN v THEN [d \in Denoms |-> bal[k][d] + v[k][d]] ELSE bal[k]])
   /\ act' = [name |-> "fee", v |-> v]
   /\ UNCHANGED <<mcfg, ms, hist, now, total, sup, mexact, dcfg, rem, entitled, paid, requeued, dexact, supply, minted, burned, blocks, nupd, pcScript, halted>>
 
